@@ -5,5 +5,6 @@ INIT InitPairsSome
 NEXT Next
 INVARIANT RoundTrip
 INVARIANT SizeIsLength
+INVARIANT ExtensionSignedIffFee
 POSTCONDITION ExportPairsSome
 CHECK_DEADLOCK FALSE
